@@ -2,6 +2,7 @@
 # Apply every seeded change to /repo in turn, run the listed checks (quick), undo it, and print a table.
 # usage: tools/seeded_matrix.sh [id ...]      (default: all of /verif/seeded/*)
 cd /verif
+export VERIF_EVIDENCE_DIR=/verif/build/evidence_scratch
 ids=${@:-$(ls seeded)}
 for id in $ids; do
   props=$(python3 -c "import json;m=json.load(open('/verif/seeded/$id/meta.json'));print(' '.join(m.get('checked_with',[m['property']])))")
